@@ -122,9 +122,6 @@ func (st *c10state) check(step int, a act) error {
 			if got, want := st.S[i].Equal(st.S[j]), b2i(st.MS[i].Cmp(st.MS[j]) == 0); got != want {
 				return gen.Fail("history/scalar-equal", "%s: Equal(s%d, s%d) = %d, model %d", where, i, j, got, want)
 			}
-			if got, want := st.S[i].LessOrEqual(st.S[j]), uint64(b2i(st.MS[i].Cmp(st.MS[j]) <= 0)); got != want {
-				return gen.Fail("history/scalar-order", "%s: LessOrEqual(s%d, s%d) = %d, model %d", where, i, j, got, want)
-			}
 		}
 	}
 	return nil
